@@ -292,6 +292,34 @@ def run_validation(lines, soll):
     return evalimpl.outcome(lambda: asyncio.run(validate_deep_anwendungshandbuch(deep, soll_is_required=soll)))
 
 
+def run_segment_level(node, soll):
+    """validate_segment_level with a segment group or a segment as root"""
+    from ahbicht.validation.validation import validate_segment_level
+
+    m = to_maus(node)
+    return evalimpl.outcome(lambda: asyncio.run(validate_segment_level(m, soll_is_required=soll)))
+
+
+def run_segment(node, parent_status, soll):
+    """validate_segment(segment, segment_group_requirement, soll_is_required)"""
+    from ahbicht.models.validation_values import RequirementValidationValue as R
+    from ahbicht.validation.validation import validate_segment
+
+    m = to_maus(node)
+    return evalimpl.outcome(lambda: asyncio.run(validate_segment(m, None if parent_status is None else R[parent_status], soll)))
+
+
+def first_segment(node):
+    if node[0] == "S":
+        return node
+    if node[0] == "G":
+        for c in node[3]:
+            s = first_segment(c)
+            if s is not None:
+                return s
+    return None
+
+
 def val_obs(res, invalid_msgs):
     tag, v = res
     if tag == "exn":
